@@ -8,6 +8,7 @@ from collections import defaultdict
 from typing import TYPE_CHECKING, cast
 
 from ..lazy_community import lazy_wrapper, lazy_wrapper_wd
+from ..taskmanager import task
 from . import DHTError
 from .community import MAX_NODES_IN_FIND, PING_INTERVAL, TARGET_NODES, DHTCommunity, Request, gather_without_errors
 from .payload import (
@@ -93,6 +94,7 @@ class DHTDiscoveryCommunity(DHTCommunity):
         except DHTError:
             return []
 
+    @task
     async def send_store_peer_request(self, key: bytes, nodes: list[Node]) -> list[Node]:
         """
         Send a request for storage to the given nodes.
@@ -144,6 +146,7 @@ class DHTDiscoveryCommunity(DHTCommunity):
             raise DHTError(msg)
         return nodes
 
+    @task
     async def send_connect_peer_request(self, key: bytes, nodes: list[Node]) -> list[Node]:
         """
         Send a request for connection to the given nodes.
